@@ -6,6 +6,10 @@ levels, and derives (a) the classes in which the objective as transcribed from m
 function (prediction only) and (b) for radial lossless DC cases the exact optimum by brute force over the integer dispatch
 grid.  OpfObs.tla evaluates the user's cost functions at the reported powers in fixed point and compares with net.res_cost
 and with the grid optimum.
+The structural dimensions of the template are part of the slice: several dclines (the dcline cost row belongs to the last
+one) operated forward / in reverse, net.sn_mva (the solver's per-unit base), a "ghost" (an out-of-service element whose
+cost row stays in the table, first or at its place).  The sample covers every stratum of Opf.tla (req.stratum: AC/DC x
+structural deviation x cost class = branch of make_objective.py / of the solver's cost handling).
 """
 import json
 import time
@@ -13,11 +17,11 @@ import time
 from ..common import Verdict, use_repo
 from ..obs import tlc_obs
 from ..tla import MachineryError
-from .c16 import PROCS, enumerate_model, obs_cases, run_cases, sample_sizes, select
+from .c16 import PROCS, enumerate_model, focus_counts, obs_cases, run_cases, sample_sizes, select
 
 QUICK = {}
 THOROUGH = {"VarSet": "{1, 2}", "OptSet": '{"default", "tight"}', "MeshSet": "{TRUE, FALSE}", "RateSet": '{"loose", "tight"}',
-            "GridModelMax": "1000"}
+            "GridModelMax": "1000", "DclSet": '{"none", "f", "F", "r", "R", "fr", "rf", "frf"}', "SnSet": "{1, 10, 50}"}
 INVERTED = ("load", "storage", "dcline")
 NOOPT = 1000000000
 
@@ -40,12 +44,13 @@ def run(tier, seed, replay=None):
     if replay:
         states = [{"cfg": replay["case"]["cfg"], "req": replay["case"]["req"]}]
         mstates = mtrans = 0
-        n_model = 1
+        n_model = n_strata = 1
     else:
         states, r = enumerate_model("OpfCost.cfg", QUICK if tier == "quick" else THOROUGH)
         for name, st, raw in r.violations:
             v.divergence("model-level: %s" % name, None)
         mstates, mtrans, n_model = r.distinct, r.generated, len(states)
+        n_strata = len({json.dumps(s["req"]["stratum"], sort_keys=True) for s in states})
         states = select(states, tier, seed, *sample_sizes(tier, (250, 450)))
     t1 = time.time()
     cases = run_cases(v, states, tier, seed, replay)
@@ -86,11 +91,15 @@ def run(tier, seed, replay=None):
         "with_predicted_deviation": sum(1 for c in conv if c["req"]["dev"]),
         "grid_feasible_but_not_converged": sum(1 for c in cases if not c["o"]["conv"] and c["req"]["gridknown"] and c["req"]["gridopt"] != NOOPT),
         "cost_kinds_seen": sorted({"%s:%s" % (e, k) for c in conv for e, k in c["cfg"]["kind"].items() if k != "none"}),
+        "converged_by_focus": focus_counts(conv), "strata_in_model": n_strata,
+        "strata_sampled": len({json.dumps(c["req"]["stratum"], sort_keys=True) for c in cases}),
         "wall_model_s": round(t1 - t0, 1), "wall_impl_s": round(t2 - t1, 1),
         "rule": "configurations of Opf.tla (slice cost: every assignment of cost kinds to at most MaxCosted of the six element "
                 "types x coefficient variant x controllable = all / only the costed elements x AC (loose limits, both solver "
-                "option sets) / DC (p limit level x branch rating level) x dcline lossless / lossy when costed); quick: seeded "
-                "sample, thorough: all DC configurations and a seeded sample of 4000 AC ones; non-trivial = converged and a cost row that is not a plain linear cost on a generating "
+                "option sets) / DC (p limit level x branch rating level) x dclines (one or several, forward / reverse, lossless / "
+                "lossy) when costed x net.sn_mva x ghost = out-of-service sgen / load / storage keeping its cost row, first in the "
+                "table or at its place; at most MaxDev of the structural dimensions leave the plain template); quick: seeded "
+                "sample covering every stratum (req.stratum), thorough: all DC configurations and a seeded sample of 4000 AC ones; non-trivial = converged and a cost row that is not a plain linear cost on a generating "
                 "element (c0, c2, pwl, reactive cost, or any cost on load / storage / dcline)",
         "samples": [{"cfg": c["cfg"], "req": c["req"], "o": {k: c["o"][k] for k in ("conv", "p", "q", "cost")}}
                     for c in (cases[0], cases[len(cases) // 2], cases[-1])],
@@ -104,7 +113,10 @@ def run(tier, seed, replay=None):
         "costs, upper bound for convex quadratic costs)",
         "not generated (rejected or documented as unsupported by the code): pwl together with quadratic costs (ValueError), "
         "pwl with >1 area on load / storage / dcline (doc/opf/formulation.rst), reactive costs in DC or next to pwl rows, "
-        "cost rows on non-controllable sgen / load / storage (not part of the optimisation), a net without any cost row",
+        "cost rows on IN-SERVICE non-controllable sgen / load / storage (not part of the optimisation, but with a power), a "
+        "net without any cost row; cost rows of out-of-service elements only without constant term and only when the element "
+        "is the only one of its kind (see proposed_fixes/C17_3: a lower-index out-of-service element's row lands on another "
+        "generator)",
         "at most 2 costed elements per case; coefficient tables of OpfDef.tla (small integers)",
     ]
     return v.finish()
